@@ -532,6 +532,25 @@ pub fn count_skipped(n: &Node) -> i64 {
         _ => 0,
     }
 }
+/// number of structs whose serialised `state` and `history` do not have the same field names (a HistoryVec is
+/// derived field by field from its state struct: a field saved in one and not in the other is lost on reload)
+pub fn count_colmis(n: &Node) -> i64 {
+    match n {
+        Node::Map(m) => {
+            let st = m.iter().find(|(k, _)| k == "state").map(|(_, v)| v);
+            let hi = m.iter().find(|(k, _)| k == "history").map(|(_, v)| v);
+            let own = match (st, hi) {
+                (Some(Node::Map(a)), Some(Node::Map(b))) => {
+                    (a.len() != b.len() || a.iter().zip(b).any(|(x, y)| x.0 != y.0)) as i64
+                }
+                _ => 0,
+            };
+            own + m.iter().map(|(_, x)| count_colmis(x)).sum::<i64>()
+        }
+        Node::Seq(a) => a.iter().map(count_colmis).sum(),
+        _ => 0,
+    }
+}
 pub fn count_nonfinite(n: &Node) -> i64 {
     match n {
         Node::F(b) => (!f64::from_bits(*b).is_finite()) as i64,
